@@ -20,7 +20,7 @@ import gal
 import yaql
 from yaql.language import exceptions as yexc
 
-GEN = []
+GEN = ["casemap"]
 RULE = ("strings over {a,b,c,' '} (length <= 7) plus Unicode samples (astral, combining, non-ASCII white space, "
         "lone surrogate); for substring/indexOf/lastIndexOf every start in [-len, len+2] and length in "
         "[-2, len+2] of each grid string; random cases for split/rightSplit/join/trim*/norm/isEmpty/replace/"
@@ -45,7 +45,7 @@ EXPLANATION = ("proofs of the documented meaning on the Gallina model of the str
 LEVEL_NOTE = "re matching itself and case mapping are oracles; everything yaql adds on top is modelled"
 ALLOWED_AXIOMS = []
 
-HEADER = "From YV Require Import Model.Strings Model.Regex Model.RegexEngine."
+HEADER = "From YV Require Import Model.Strings Model.Regex Model.RegexEngine Model.CaseMap."
 HERE = os.path.dirname(os.path.dirname(os.path.dirname(os.path.abspath(__file__))))
 
 _engine = None
@@ -157,6 +157,16 @@ def expr_of(call):
         return "$.s.toUpper()", {"s": call[1]}
     if fn == "lower":
         return "$.s.toLower()", {"s": call[1]}
+    if fn == "hex":
+        return "hex($.n)", {"n": call[1]}
+    if fn == "isString":
+        return "isString($.v)", {"v": call[1]}
+    if fn == "isRegex":
+        if call[1] == "<regex>":
+            return "isRegex(regex($.p))", {"p": "a.c"}
+        return "isRegex($.v)", {"v": call[1]}
+    if fn == "escapeRegex":
+        return "escapeRegex($.s)", {"s": call[1]}
     if fn == "characters":
         flags = call[1]
         on = [FLAG_NAMES[i] for i in range(12) if flags[i]]
@@ -264,6 +274,14 @@ def call_term(c):
         return gal.app("KUpper", S(c[1]))
     if fn == "lower":
         return gal.app("KLower", S(c[1]))
+    if fn == "hex":
+        return gal.app("KHex", Z(c[1]))
+    if fn == "isString":
+        return gal.app("KIsString", scal(c[1]))
+    if fn == "isRegex":
+        return gal.app("KIsRegex", "None" if c[1] == "<regex>" else "(Some %s)" % scal(c[1]))
+    if fn == "escapeRegex":
+        return gal.app("KEscapeRegex", S(c[1]))
     if fn == "characters":
         return "(KCharacters {| %s |})" % "; ".join("%s := %s" % (FLAG_FIELDS[i], gal.boolean(c[1][i])) for i in range(12))
     raise ValueError(c)
@@ -490,6 +508,20 @@ def ref(call):
     if fn in ("upper", "lower"):
         lo, hi, d = (97, 122, -32) if fn == "upper" else (65, 90, 32)
         return ("str", "".join(chr(ord(ch) + d) if lo <= ord(ch) <= hi else ch for ch in call[1]))
+    if fn == "hex":
+        n, digits = abs(call[1]), []
+        while True:
+            digits.append("0123456789abcdef"[n % 16])
+            n //= 16
+            if n == 0:
+                break
+        return ("str", ("-" if call[1] < 0 else "") + "0x" + "".join(reversed(digits)))
+    if fn == "isString":
+        return ("bool", type(call[1]) is str)
+    if fn == "isRegex":
+        return ("bool", call[1] == "<regex>")
+    if fn == "escapeRegex":
+        return ("str", "".join("\\" + ch if ch in "()[]{}?*+-|^$\\.&~# \t\n\r\v\f" else ch for ch in call[1]))
     if fn == "characters":
         chars = set()
         for i in range(12):
@@ -575,7 +607,8 @@ def random_call(rng):
     fn = rng.choice(["substring", "indexOf", "lastIndexOf", "indexOf3", "lastIndexOf3",
                      "split", "split", "rightSplit", "rightSplit", "join", "trim", "trimLeft", "trimRight", "norm",
                      "isEmpty", "replace", "replace", "replaceDict", "replaceDict", "startsWith", "endsWith",
-                     "toCharArray", "len", "in", "mul", "characters", "cmp", "cmp", "concat", "str", "upper", "lower"])
+                     "toCharArray", "len", "in", "mul", "characters", "cmp", "cmp", "concat", "str", "upper", "lower",
+                     "hex", "isString", "isRegex", "escapeRegex"])
     s = rstr(rng)
     n = len(s)
     if fn == "substring":
@@ -633,6 +666,15 @@ def random_call(rng):
         return (fn, rscalar(rng))
     if fn in ("upper", "lower"):
         return (fn, "".join(rng.choice("abzAZ09 _{[@`") for _ in range(rng.randrange(0, 8))))
+    if fn == "hex":
+        return (fn, rng.choice([0, 1, 9, 10, 15, 16, 255, 256, -1, -16, -255, 4096, 2 ** 64, -(2 ** 70) + 3, rng.randrange(-10 ** 6, 10 ** 6),
+                                rng.randrange(0, 2 ** 40)]))
+    if fn == "isString":
+        return (fn, rscalar(rng))
+    if fn == "isRegex":
+        return (fn, "<regex>" if rng.random() < 0.4 else rng.choice([None, True, 3, "a.c", ""]))
+    if fn == "escapeRegex":
+        return (fn, "".join(rng.choice("ab_0 .*+?()[]{}|^$\\-&~#!%,/:;<=>@`'\"\t\n\x0b\x0c\ré") for _ in range(rng.randrange(0, 8))))
     if fn == "characters":
         k = rng.choice([1, 1, 1, 2, 3])
         on = set(rng.sample(range(12), k))
@@ -642,7 +684,7 @@ def random_call(rng):
 
 def nontrivial(call, obs):
     fn = call[0]
-    if fn in ("characters", "str"):
+    if fn in ("characters", "str", "hex", "isString", "isRegex"):
         return True
     if fn == "cmp":
         return bool(call[2]) and bool(call[3])
@@ -1220,6 +1262,59 @@ def fix_regex_call(rc):
     return rc
 
 
+_case_tables = None
+
+
+def case_tables():
+    """(upper dict, lower dict, excluded-for-upper set, excluded-for-lower set) of the running interpreter (BMP)."""
+    global _case_tables
+    if _case_tables is None:
+        import gen_casemap
+        up, lo, us, ls, ctx = gen_casemap.tables()
+        _case_tables = (dict(up), dict(lo), set(us), set(ls) | set(ctx), sorted(set(dict(up)) | set(dict(lo))))
+    return _case_tables
+
+
+def case_mapping_cases(run, rep, rng):
+    up, lo, xu, xl, cased = case_tables()
+    run.cov["uncovered"].append(
+        "toUpper/toLower: %d (upper) / %d (lower) BMP code points have a full (multi-character) or context-sensitive "
+        "case mapping and are outside the model, e.g. U+00DF -> 'SS', U+0130, final sigma U+03A3; code points above "
+        "U+FFFF are not in the regenerated table" % (len(xu), len(xl)))
+    terms, meta = [], []
+    fixed = ["", "aB1c", "éÉ", "ǅ", "straße".replace("ß", "s"), "ΑΒΓαβγ", "привет МИР", "ａＡ", "ǆǄ", "ÿŸ", "ſ", "µ", "İ".lower()[:1]]
+    n = run.n(700, 8000)
+    for i in range(len(fixed) * 2 + n):
+        if i < len(fixed) * 2:
+            s_, upper = fixed[i // 2], i % 2 == 0
+        else:
+            upper = rng.random() < 0.5
+            s_ = "".join(chr(rng.choice(cased)) if rng.random() < 0.7 else
+                         chr(rng.randrange(0x20, 0x250)) if rng.random() < 0.7 else chr(rng.randrange(0x20, 0xD800))
+                         for _ in range(rng.randrange(0, 7)))
+        bad = xu if upper else xl
+        s_ = "".join(ch for ch in s_ if ord(ch) not in bad and ord(ch) < 0x10000)
+        call = ("upper" if upper else "lower", s_)
+        obs = run_call(call)
+        run.case(("case", call), nontrivial=any(ord(ch) > 127 for ch in s_))
+        run.count("fn:unicode-" + call[0])
+        terms.append("(%s, %s, %s)" % (gal.boolean(upper), gal.s(s_), gal.s(obs[1]) if obs[0] == "str" else gal.s(s_ + "\x00!")))
+        meta.append((call, obs))
+    for i in run.coq_mismatches(HEADER, "ccase", "ccase_ok", terms, shard=400):
+        call, obs = meta[i]
+        tab = up if call[0] == "upper" else lo
+        req = ("str", "".join(chr(tab.get(ord(ch), ord(ch))) for ch in call[1]))
+        e, d = expr_of(call)
+        data = {"kind": "case", "call": list(call), "expression": e, "data": d, "observed": list(obs), "required": list(req),
+                "found_by": "C"}
+        if tuple(req) != tuple(obs):
+            rep.add("violation", "%s: result differs from the simple case mapping of the text (%s)" % (
+                "toUpper" if call[0] == "upper" else "toLower", "raises" if obs[0] == "foreign" else "wrong value"), data)
+        else:
+            rep.add("mismatch", "Model/CaseMap.v and strings.py disagree on %s (the table twin agrees with the implementation)" % call[0], data)
+    rep.flush()
+
+
 def correspondence(run):
     rep = Reporter(run)
     rng = run.rng
@@ -1245,6 +1340,8 @@ def correspondence(run):
     for i in run.coq_mismatches(HEADER, "case", "case_ok", terms, shard=400):
         judge_string(rep, meta[i][0], meta[i][1])
     rep.flush()
+    # ---- toUpper / toLower on the regenerated simple case mapping (BMP) ----
+    case_mapping_cases(run, rep, rng)
     # ---- regex ----
     rcalls = [fix_regex_call(r) for r in cr]
     for pat in FIXED_PATTERNS:
@@ -1467,6 +1564,14 @@ def replay(run, data):
             t = [ecase_term(rc, obs)]
             return not run.coq_mismatches(HEADER, "ecase", "ecase_ok", t) or bool(run.coq_mismatches(HEADER, "ecase", "ecase_fuel_ok", t))
         return True
+    if kind == "case":
+        call = tuple(d["call"])
+        obs = run_call(call)
+        up, lo, xu, xl, _ = case_tables()
+        tab = up if call[0] == "upper" else lo
+        req = ("str", "".join(chr(tab.get(ord(ch), ord(ch))) for ch in call[1]))
+        log_replay(d["expression"], d["data"], obs, req)
+        return tuple(req) == tuple(obs)
     if kind == "engine":
         t, ms = mcase_term(d["pattern"], tuple(d["flags"]), d["subject"])
         print("replay: engine vs re on %r flags=%r subject=%r; re finds %r" % (d["pattern"], d["flags"], d["subject"],
